@@ -13,10 +13,12 @@ import (
 	"os"
 	"path/filepath"
 	"runtime"
+	"strings"
 	"sync"
 	"testing"
 	"time"
 
+	"github.com/prometheus/client_golang/prometheus"
 	"github.com/transparency-dev/witness/internal/persistence"
 	"github.com/transparency-dev/witness/internal/persistence/inmemory"
 	psql "github.com/transparency-dev/witness/internal/persistence/sql"
@@ -179,6 +181,13 @@ func TestRaceStress(t *testing.T) {
 				}
 			}
 		}
+		// C20 under real parallelism: the production metrics backend (monitoring/prometheus) and the harness's own recording
+		// factory received exactly the same increments, so per label they must agree (a backend that books an increment under
+		// another log's label when two increments overlap does not)
+		if bad := backendDisagreement(); bad != "" {
+			fmt.Printf("RACESTRESS COUNTERS %s\n", bad)
+			t.Fatalf("C20 race stress: %s", bad)
+		}
 		if db != nil {
 			db.Close()
 		}
@@ -188,4 +197,31 @@ func TestRaceStress(t *testing.T) {
 		rounds++
 	}
 	fmt.Printf("RACESTRESS rounds=%d accepted=%d conflicts=%d wall=%.1fs\n", rounds, accepted, conflicts, time.Since(start).Seconds())
+}
+
+// backendDisagreement compares, for every single-label counter, the value held by the Prometheus registry with the number of
+// increments the recording factory saw for that label.
+func backendDisagreement() string {
+	mfs, err := prometheus.DefaultGatherer.Gather()
+	if err != nil {
+		return "gathering from the Prometheus registry failed: " + err.Error()
+	}
+	rec := recorder.Snapshot()
+	compared := 0
+	for _, mf := range mfs {
+		for _, m := range mf.GetMetric() {
+			if m.GetCounter() == nil || len(m.GetLabel()) != 1 {
+				continue
+			}
+			key := strings.TrimPrefix(mf.GetName(), "verifsim_") + "|" + m.GetLabel()[0].GetValue()
+			compared++
+			if want, ok := rec[key]; ok && want != m.GetCounter().GetValue() {
+				return fmt.Sprintf("counter %s{%s=%q}: the Prometheus backend holds %v, %v increments were made for that label", mf.GetName(), m.GetLabel()[0].GetName(), m.GetLabel()[0].GetValue(), m.GetCounter().GetValue(), want)
+			}
+		}
+	}
+	if compared == 0 {
+		return "no labelled counter found in the Prometheus registry: the comparison is vacuous"
+	}
+	return ""
 }
